@@ -20,6 +20,10 @@ RULE = ("groups = script (aux thread counts of successive broadcasts on one pool
         "histogram). Non-trivial = the script has a broadcast with >= 1 auxiliary thread; distinct by (group, trace index).")
 
 ASSUMPTIONS = [
+    "a refused thread creation (Builder::spawn -> Err; the `expect` in pool.rs panics under the lock, before any send) is not a "
+    "transition of the model: the aborted broadcast is treated at the sequence level — it must hand out nothing, call nothing and "
+    "leave n+1 empty slots — and is replaced, for everything that follows, by a successful broadcast on exactly the threads "
+    "that exist afterwards (same pool state, same broadcast numbering); every later broadcast is judged as usual",
     "std's park/unpark (token semantics, spurious wake-ups allowed), sync_channel(0) (rendezvous), Mutex and thread spawn behave as documented; "
     "they are replaced by the sched_std shim over shuttle 0.9.3 in the harness",
     "sequentially consistent interleavings only on the implementation side (shuttle); weak-memory behaviour is covered by the view model "
@@ -68,6 +72,22 @@ def state_groups(tier, rng):
     return out
 
 
+def failspawn_groups(tier, rng):
+    """the k-th thread creation is refused (Builder::spawn -> Err, `expect` panics under the lock, the harness catches
+    the unwind); the script goes on with later broadcasts that need the missing threads again / reuse the live ones"""
+    quick = tier == "quick"
+    out = []
+    cases = [([2, 2], 2), ([2, 2], 1), ([1, 3, 2], 2), ([2, 0, 2, 1], 1), ([3, 1, 3], 3), ([1, 2, 2, 1], 2), ([1, 1, 3, 1], 3)]
+    if not quick:
+        cases += [([4, 4, 2], 3), ([1, 5, 5], 4), ([2, 3, 1, 3], 3), ([6, 6], 6)]
+    for scr, k in cases:
+        pan = _panic_subsets(scr, rng, 2)[1]
+        s = "script=%s panics=%s failspawn=%d" % (",".join(map(str, scr)), ",".join("%d.%d" % c for c in pan), k)
+        out.append(f"{s} sched=random seed={rng.randrange(1 << 30)} iters={40 if quick else 1500}")
+        out.append(f"{s} sched=pct{rng.choice([2, 3])} seed={rng.randrange(1 << 30)} iters={20 if quick else 600}")
+    return out
+
+
 def vec_groups(tier, rng):
     quick = tier == "quick"
     out = []
@@ -108,6 +128,7 @@ def groups(tier, rng):
     # or starting with k elements and capacity c), thread counts growing after a smaller broadcast
     gs += vec_groups(tier, rng)
     gs += state_groups(tier, rng)
+    gs += failspawn_groups(tier, rng)
     # bounded DFS (exhaustive for the smallest cases)
     gs.append("script=1 panics= sched=dfs seed=0 iters=100000 spur=2")
     gs.append("script=1 panics=1.1 sched=dfs seed=0 iters=100000 spur=1")
@@ -268,7 +289,7 @@ def _fmt_group(scr, pan, bombs, d):
     out = ["script=" + ",".join(map(str, scr)), "panics=" + ",".join("%d.%d" % c for c in pan)]
     if bombs:
         out.append("bombs=" + ",".join("%d.%d" % c for c in bombs))
-    for k in ("vec", "state", "sched", "seed", "iters", "spur"):
+    for k in ("vec", "state", "failspawn", "sched", "seed", "iters", "spur"):
         if k in d:
             out.append(f"{k}={d[k]}")
     return " ".join(out)
@@ -297,8 +318,13 @@ def _candidates(scr, pan, bombs, d):
             yield scr, pan, bombs, dict(d, iters=str(k))
 
 
-def _failing(group, mode, hbin, drv):
-    """(head, trace, verdict) of the shortest violating trace of the group, or None"""
+def _clauses(verdict):
+    return {c for c in verdict.replace("false", "", 1).strip().split(" ")[0].split(",") if c}
+
+
+def _failing(group, mode, hbin, drv, want=None):
+    """(head, trace, verdict) of the shortest violating trace of the group that shares a violated clause with `want`
+    (a shrunk case must fail for the same reason), or None"""
     try:
         p = subprocess.run([hbin, "replay"], input=group + "\n", stdout=subprocess.PIPE, stderr=subprocess.PIPE,
                            text=True, timeout=120, env=ENV)
@@ -316,7 +342,8 @@ def _failing(group, mode, hbin, drv):
     q = subprocess.run([drv, mode + ".sb"], input="\n".join(f"{group} #{h}\t{ev}" for h, _, ev in traces) + "\n",
                        stdout=subprocess.PIPE, stderr=subprocess.DEVNULL, text=True, timeout=300)
     verdicts = q.stdout.split("\n")
-    bad = [(h, ev, v) for (h, _, ev), v in zip(traces, verdicts) if v.startswith("false")]
+    bad = [(h, ev, v) for (h, _, ev), v in zip(traces, verdicts)
+           if v.startswith("false") and (want is None or _clauses(v) & want)]
     if not bad:
         return None
     return min(bad, key=lambda x: (len(x[1].split(" ")), x[0]))
@@ -331,7 +358,8 @@ def shrink(item, rerun):
     drv = vp.driver_bin(item.get("drv", "pool"))
     group = item["case"].split(" #")[0]
     scr, pan, bombs, d = _parse_group(group)
-    best = _failing(_fmt_group(scr, pan, bombs, d), mode, hbin, drv)
+    want = _clauses(item.get("spec_verdict") or "") or None
+    best = _failing(_fmt_group(scr, pan, bombs, d), mode, hbin, drv, want)
     if best is None:
         return item
     budget = 80
@@ -342,7 +370,7 @@ def shrink(item, rerun):
             budget -= 1
             if budget <= 0:
                 break
-            r = _failing(_fmt_group(*cand), mode, hbin, drv)
+            r = _failing(_fmt_group(*cand), mode, hbin, drv, want)
             if r is not None:
                 scr, pan, bombs, d = cand
                 best = r
